@@ -122,7 +122,8 @@ RULE = ("flat classes (1..5 fields: Integer/Number/Float incl. sign variants, St
         "Plus a DEEP stream: classes whose fields are collections nested 2..3 levels (every combination of Array/Deque/Tuple/Set/Map, homogeneous "
         "and positional) over scalars and nested structures (class references anywhere; inline StructureReference as direct fields only - inside "
         "collections an inline structure is deserialized without the aggregated mapper and a null field becomes a value: a region of the `deser` "
-        "model kept out), collections of class references, and top-level nested-structure fields; ONE position at a random depth of one or two "
+        "model kept out), collections of class references, top-level nested-structure fields, and AnyOf / OneOf / AllOf / NotField over "
+        "scalars and collections (as a field or as the item of a collection); ONE position at a random depth of one or two "
         "fields made invalid (boundary neighbour of the declaration AT that position, payload text, other type); constructor and both "
         "deserialization entry points, fail-fast on/off; compared: the full suffix chain (Lean `locate`), deser accept/reject + exception class "
         "(Lean `deser` on the definition-order class dump), the head every message must begin with (Lean `dHead`); oracle additionally: the path "
